@@ -66,7 +66,7 @@ def main():
         return 2
     res = {'property': a.prop, 'seed_dir': seed, 'checks': {}, 'ran': []}
     HS = ('0', '1', '2', '3')
-    rcs = [sh('%s %s/demo.py' % (PY, seed), cwd=REPO, env={'PYTHONHASHSEED': h})[0] for h in HS]
+    rcs = [sh('%s %s/demo.py' % (PY, seed), cwd=REPO, env={'PYTHONHASHSEED': h, 'PYTHONPATH': REPO})[0] for h in HS]
     rc = max(rcs)
     res['demo_clean_exit'] = rc
     res['ran'].append('demo.py on clean tree under PYTHONHASHSEED 0..3 -> exit codes %s' % rcs)
@@ -87,7 +87,7 @@ def main():
         bad_ = [o for o in outs_ if '87 passed' not in o]
         res['unit_tests'] = bad_[0] if bad_ else outs_[0]
         res['ran'].append('unit tests with change under PYTHONHASHSEED 0..5 -> %s' % [o.split(' in ')[0] for o in outs_])
-        outs = [sh('%s %s/demo.py' % (PY, seed), cwd=REPO, env={'PYTHONHASHSEED': h}) for h in HS]
+        outs = [sh('%s %s/demo.py' % (PY, seed), cwd=REPO, env={'PYTHONHASHSEED': h, 'PYTHONPATH': REPO}) for h in HS]
         rcs = [o[0] for o in outs]
         rc = max(rcs)
         out = next(o[1] for o in outs if o[0] == rc)
